@@ -49,7 +49,12 @@ pub fn bf_case(p: BParams, user_pct: u32) -> BoxedStrategy<BFCase> {
 }
 
 pub fn params(tier: Tier) -> BParams {
-    BParams::std(tier == Tier::Quick)
+    let mut p = BParams::std(tier == Tier::Quick);
+    // auxiliary-bearing systems whose only service is NEPB or COGEN are valid input (the
+    // auxiliaries are then accounted as non-EPB use); only C06 excludes them (its statement is
+    // about systems that serve EPB services)
+    p.aux_non_epb = true;
+    p
 }
 
 pub fn err_kind(e: &EpbdError) -> &'static str {
